@@ -141,6 +141,7 @@ Definition pobs_eqb (a b : pobs) : bool :=
   | POTree x, POTree y => gval_eqb x y
   | POObj x, POObj y => robj_eqb x y
   | POErr EUnsupported, POOther => true
+  | POErr EUnsupported, POErr _ => true   (* outside the slice the model claims nothing; the code may fail later on *)
   | POErr x, POErr y => perr_eqb x y
   | _, _ => false
   end.
@@ -284,7 +285,30 @@ Definition wev_prefix_free (e : list wevent) : bool :=
     64 visible  128 nil  256 rewrite  512 dtclark  1024 xsitype  2048 space
   4096 first-level xsi:type datatype (holder placements)   8192 ill-formed names (harness bug)
  16384 typed child with a tail in a non-mixed holder   32768 tail of a single-wildcard holder written inside it
+131072 a first-level xs:QName / xs:NOTATION value resolves differently (or not at all) in the written output
  65536 written infoset under a user supplied prefix map differs from the model (ill-formed output included) *)
+(* Namespace-sensitive datatypes (xs:QName, xs:NOTATION) named by xsi:type on a first-level child of a
+   holder: the value space is (namespace name, local part), so the text is compared after resolution
+   against the bindings in scope, in the input and in the written output.  An undeclared prefix in the
+   output stays unresolved and differs.  Only positions that are so typed on both sides are compared
+   (F8 explains a changed type, not a changed or unresolvable value). *)
+Definition is_nsvalue_type (q : str) : bool :=
+  str_eqb q (datatype_clark [81;78;97;109;101]) || str_eqb q (datatype_clark [78;79;84;65;84;73;79;78]).
+Definition qname_value (m : nsmap) (k : itree) : option str :=
+  let m' := i_nsd k ++ m in
+  match attr_get xsi_type_q (i_atts k) with
+  | Some v => if is_nsvalue_type (resolve_qname m' v) then Some (resolve_qname m' (i_text k)) else None
+  | None => None
+  end.
+Fixpoint qvals_agree (mi mo : nsmap) (ki ko : list itree) : bool :=
+  match ki, ko with
+  | a :: r, b :: s => match qname_value mi a, qname_value mo b with
+                      | Some x, Some y => str_eqb x y
+                      | _, _ => true
+                      end && qvals_agree mi mo r s
+  | _, _ => true
+  end.
+
 Definition judge_obs (t : itree) (ob : obs) : N :=
   let o := oracle_of (ob_vtext ob) (ob_vtail ob) in
   let evs := pump o [] [] t in
@@ -314,6 +338,13 @@ Definition judge_obs (t : itree) (ob : obs) : N :=
                         negb (forallb (fun out => opt_eqb itree_eqb mw (option_map (canon []) out)) (ob_outs_ns ob))
                     | None => false
                     end in
+  let c_qname := match ob_pl ob with
+                 | Some _ => negb (forallb (fun out => match out with
+                                                       | Some x => qvals_agree (i_nsd t) (i_nsd x) (i_kids t) (i_kids x)
+                                                       | None => true
+                                                       end) (ob_outs ob))
+                 | None => false
+                 end in
   let app := applicable (ob_pl ob) t in
   let want := expected (ob_pl ob) t in
   (* the exception is a permission, not a duty: the output is normalised too *)
@@ -340,7 +371,7 @@ Definition judge_obs (t : itree) (ob : obs) : N :=
   + bit (negb (tree_all g_names_node [] t)) 8192
   + bit (match ob_pl ob with Some p => negb (g_typed_tail (pl_reg p) (pl_cfg p) t) | None => false end) 16384
   + bit (match ob_pl ob with Some p => negb (g_single_tail (pl_reg p) (pl_cfg p) t) | None => false end) 32768
-  + bit c_write_ns 65536.
+  + bit c_write_ns 65536 + bit c_qname 131072.
 
 Fixpoint judge_list (t : itree) (i : N) (l : list obs) : list (N * N) :=
   match l with
